@@ -25,7 +25,8 @@ PROOF_CORE = {
            'common-pixel slices',
     'C04': 'detect_threshold equals background + nsigma*error pixel-wise; only finite, unmasked '
            'pixels strictly above the threshold are handed to the labeller; 4-/8-connectivity '
-           'structure',
+           'structure; a component is kept iff at least npixels pixels carry its label; kept labels '
+           'become 1..N',
     'C05': 'every derived attribute equals that of a fresh object after any history (cache '
            'coherence invariant); reassign / relabel_consecutive have their documented '
            'set-theoretic effect on every label array; keep_labels / remove_masked_labels '
